@@ -140,7 +140,9 @@ var ignoreCodeLists = []func(code string, r *base.Rand) (string, string){
 		return string(c[0]) + strings.ToLower(c[1:]), "mixed-case"
 	},
 	func(c string, r *base.Rand) (string, string) { return "ZZ99, " + c + " ,IMPL", "several" },
-	func(c string, r *base.Rand) (string, string) { return c + " because of reasons, see TICKET-1", "trailing-text" },
+	func(c string, r *base.Rand) (string, string) {
+		return c + " because of reasons, see TICKET-1", "trailing-text"
+	},
 	func(c string, r *base.Rand) (string, string) { return c + "\t// legacy", "trailing-comment" },
 	func(c string, r *base.Rand) (string, string) { return "ZZ99", "unknown-code" },
 	func(c string, r *base.Rand) (string, string) { // wrong category
@@ -162,7 +164,9 @@ var ignoreCodeLists = []func(code string, r *base.Rand) (string, string){
 	},
 	func(c string, r *base.Rand) (string, string) { return "all", "all-lower" },
 	// the free-form reason after the list happens to start with a word that is also a code word
-	func(c string, r *base.Rand) (string, string) { return "ZZ99 all writes here are intended", "reason-starts-with-all" },
+	func(c string, r *base.Rand) (string, string) {
+		return "ZZ99 all writes here are intended", "reason-starts-with-all"
+	},
 	func(c string, r *base.Rand) (string, string) {
 		return c + " " + strings.ToLower(CategoryOfCode(c)) + " rules are checked elsewhere, ALL of them", "reason-starts-with-category"
 	},
